@@ -5,7 +5,7 @@ import Oracle.C06
      plan K=<1..8> X=<0|1> C=<cmd>|<cmd>… S=<slot>:<n>,… R=<row>;<row>…
    (grammar and conventions: harness/cmd/corr/c06_plan.go)
    → "shape dps=<name[flags]>,… can=<0|1> idx=<i> fs=<0|1> n=<chains> lens=<…> merger=<none|stats|limit:<L>>" and for X=1
-     " | ok cmp=<seq|set> n=<rows> <row>;…"  |  " | skip=<class>"  -/
+     " | ok cmp=<seq|set> n=<rows> <row>;…"  |  " | skip=not-judged"  -/
 namespace Oracle.C06P
 open SigModel.Pipe SigModel.PipePlan Oracle Oracle.C06
 
@@ -247,11 +247,7 @@ def plan (args : List String) : String :=
           let head := shapeStr cs sh ++ " | "
           match semChain cs tp with
           | none => head ++ "skip=not-judged"
-          | some _ =>
-            match classOf cs sh.n shs with
-            | some cl => head ++ "skip=" ++ cl
-            | none =>
-              head ++ showRows cmp (runPlan (digestKey valCode listCode) sh.n cs shs)
+          | some _ => head ++ showRows cmp (runPlan (digestKey valCode listCode) sh.n cs shs)
     | _, _, _, _, _ => "bad-op"
   | _ => "bad-op"
 
